@@ -217,6 +217,50 @@ pub fn combined_world(with_async: bool, nm: Naming) -> WorldCase {
     }
 }
 
+/// two functions in one interface (payload-type de-duplication and per-function future/stream
+/// indices interact across functions); thorough tier
+pub const PAIR_SHAPES: &[&str] = &["str", "futstr", "nested", "unitfs", "futres", "futhandle"];
+
+pub fn pair_world(s1: usize, s2: usize, is_async: bool, pos: Pos, nm: Naming) -> Option<WorldCase> {
+    if !matches!(pos, Pos::IfaceImport | Pos::IfaceExport | Pos::IfaceBoth) {
+        return None;
+    }
+    let mk = |si: usize, name: &str| {
+        let (_, params, result, _) = SHAPES[si];
+        format!(
+            "  {name}: {}func({}){};\n",
+            if is_async { "async " } else { "" },
+            params.replace("RES", nm.res()),
+            if result.is_empty() { String::new() } else { format!(" -> {}", result.replace("RES", nm.res())) }
+        )
+    };
+    let needs_res = SHAPES[s1].3 || SHAPES[s2].3;
+    let mut s = format!("package {};\n\ninterface {} {{\n", nm.pkg(), nm.iface());
+    if needs_res {
+        s += &format!("  resource {} {{ constructor(); }}\n", nm.res());
+    }
+    s += &mk(s1, nm.func());
+    s += &mk(s2, if nm.kebab { "other-fn" } else { "g" });
+    s += "}\n\nworld my-world {\n";
+    if matches!(pos, Pos::IfaceImport | Pos::IfaceBoth) {
+        s += &format!("  import {};\n", nm.iface());
+    }
+    if matches!(pos, Pos::IfaceExport | Pos::IfaceBoth) {
+        s += &format!("  export {};\n", nm.iface());
+    }
+    s += "}\n";
+    Some(WorldCase {
+        id: format!(
+            "pair/{}+{}/{}/{pos:?}/{}",
+            SHAPES[s1].0,
+            SHAPES[s2].0,
+            if is_async { "async" } else { "sync" },
+            nm.tag()
+        ),
+        src: Source::Inline(s),
+    })
+}
+
 pub fn enumerated(thorough: bool) -> Vec<WorldCase> {
     let mut out = vec![];
     let kebab_v = Naming { kebab: true, version: 1 };
@@ -259,6 +303,22 @@ pub fn enumerated(thorough: bool) -> Vec<WorldCase> {
     for with_async in [false, true] {
         for nm in &namings {
             out.push(combined_world(with_async, *nm));
+        }
+    }
+    if thorough {
+        let idx = |n: &str| SHAPES.iter().position(|s| s.0 == n).unwrap();
+        for a in PAIR_SHAPES {
+            for b in PAIR_SHAPES {
+                for is_async in [false, true] {
+                    for pos in POSITIONS {
+                        for nm in [kebab_v, plain] {
+                            if let Some(w) = pair_world(idx(a), idx(b), is_async, pos, nm) {
+                                out.push(w);
+                            }
+                        }
+                    }
+                }
+            }
         }
     }
     out
@@ -520,7 +580,10 @@ pub fn excluded(b: Backend, variant: &str, case: &WorldCase, feat: &Features) ->
             let hit = match b {
                 Backend::C => *cfg_error_context || full.starts_with("named-fixed-length-list.wit"),
                 Backend::Cpp => {
-                    if full == "issue-1598.wit" {
+                    // crates/test exempts `issue-1598.wit` from the blanket async exclusion because
+                    // it *compiles*; the backend still declares async unsupported, so C13 keeps the
+                    // blanket rule (cpp.rs:56) for it.
+                    if full == "issue-1598.wit" && !*cfg_async {
                         false
                     } else {
                         matches!(full.as_str(), "issue1514-6.wit" | "named-fixed-length-list.wit") || *cfg_async
